@@ -101,15 +101,15 @@ def pairs (bs : List Rat) : Ivals := bs.zip bs.tail
 def clipMin (a : Rat) (xs : LI L) : LI L := xs.map fun x => (max a x.1, max a x.2.1, x.2.2)
 def clipMax (b : Rat) (xs : LI L) : LI L := xs.map fun x => (min b x.1, min b x.2.1, x.2.2)
 
-/-- drop the rows before the first one that ends at or after `a`;
-    quirk: when no row ends at or after `a`, nothing is dropped. -/
+/-- drop the rows before the first one that ends after `a` (a row ending exactly at `a` has nothing left
+    inside the range); quirk: when no row ends after `a`, nothing is dropped. -/
 def cropMin (a : Rat) (xs : LI L) : LI L :=
-  match xs.dropWhile (fun x => decide (x.2.1 < a)) with
+  match xs.dropWhile (fun x => decide (x.2.1 ≤ a)) with
   | [] => xs
   | k => k
 
-/-- keep the rows before the first one that starts after `b` -/
-def cropMax (b : Rat) (xs : LI L) : LI L := xs.takeWhile (fun x => decide (x.1 ≤ b))
+/-- keep the rows before the first one that starts at or after `b` -/
+def cropMax (b : Rat) (xs : LI L) : LI L := xs.takeWhile (fun x => decide (x.1 < b))
 
 def adjustMin (a : Rat) (startL : L) (xs : LI L) : Py (LI L) :=
   let c := clipMin a (cropMin a xs)
